@@ -300,6 +300,7 @@ pub fn execute(case: &IterCase) -> (RunResult, CaseReport) {
         log_ops: true,
         abort_unwind: false,
         script: vec![],
+        abort_on_cell_race: true,
     };
     let exec = Exec::new(cfg, n);
     {
